@@ -34,6 +34,7 @@ def setup(ctx):
     ctx.require("monitor", "accepted_urls", 5000)
     ctx.require("monitor", "ipv6_urls", 300)
     ctx.require("monitor", "live_roundtrips", 22)
+    ctx.require("monitor", "wire_lines_checked", 5000)
 
 
 def host_key(h: str) -> str:
@@ -87,6 +88,30 @@ def judge_l0(ctx, text, parts=None):
     if n2 != n:
         ctx.violation(f"not-idempotent{sfx}", f"normalising twice changes the URL: {n!r} -> {n2!r}", wit)
         return kind
+    # the wire: a client sends the normalised form followed by CRLF, the server takes what precedes the FIRST
+    # CRLF as the request line and parses it - to the components the caller asked for
+    try:
+        wire = (n + "\r\n").encode("utf-8")
+    except UnicodeEncodeError:
+        wire = None
+    if wire is not None and len(wire) <= 1024:
+        from nauyaca.protocol.request import GeminiRequest
+
+        line = wire.split(b"\r\n", 1)[0]
+        ctx.count("monitor", "wire_lines_checked")
+        try:
+            req = GeminiRequest.from_line(line.decode("utf-8"))
+            got = (host_key(req.hostname), req.port, req.path or "/", req.query or "")
+        except Exception as e:  # noqa: BLE001
+            got = ("refused", type(e).__name__, str(e)[:60])
+        if got != comps(p) and v != "undecided":
+            ctx.violation(f"wire-differs{sfx}", "the request line a client sends for this URL is parsed by the server to other components than the caller's", dict(wit, wire=wire[:200], server_side=list(got)))
+            return kind
+        if got != comps(p) and (len(line) + 2 != len(wire) or got[0] != "refused"):
+            # an accepted URL outside the grammar (control characters, spaces ...): the server may refuse the
+            # line, but it must not be cut short or read as something else
+            ctx.violation(f"wire-differs:grey-url{sfx}", "the request line sent for an accepted URL is cut short or parsed to other components", dict(wit, wire=wire[:200], server_side=list(got)))
+            return kind
     ctx.count("outcome", "ok:" + kind)
     return kind
 
@@ -98,6 +123,8 @@ EDGE = [
     "gemini://example.org/a;b;c/d;e?f;g", "gemini://example.org/?", "gemini://example.org/p?", "gemini://example.org/p??", "gemini://example.org//a//b/",
     "gemini://example.org/%2F%2f/..%2F", "gemini://example.org/./../x", "gemini://a!$&'()*+,=b/x", "gemini://ex%41mple.org/", "gemini://1.2.3.4:65535/",
     "gemini://example.org/:@:@", "gemini://example.org/a?b=c&d=e/f?g:h@i", "gemini://h/#", "gemini://h/%", "gemini://h/%zz",
+    "gemini://example.org/public/\r\n../private/secret.gmi", "gemini://example.org/find?term=a\r\nb", "gemini://example.org/a\tb", "gemini://example.org/a\nb?c\rd",
+    "gemini://exam\tple.org/x", "gemini://example.org/x\r\n", " gemini://example.org/x", "gemini://example.org/a b",
 ]
 
 
@@ -111,6 +138,10 @@ def gen_mutation(rng):
     elif r < 0.4 and parts["port_text"] is None:
         head = text[: len("gemini://") + len(parts["host"])]
         text = head + rng.choice([":1965", ":", ":0", ":01965"]) + text[len(head):]
+    elif r < 0.46:
+        # characters that URL splitting silently drops or keeps: TAB, CR, LF, CR LF, space, other controls
+        pos = rng.randint(len("gemini://") + 1, len(text))
+        text = text[:pos] + rng.choice(["\t", "\r", "\n", "\r\n", "\r\n../private/x", " ", "\x0b", "\x00", "\x7f"]) + text[pos:]
     return text, parts
 
 
